@@ -301,6 +301,34 @@ def comparator_matrix(ctx, facts, roles, f, s2n, op, cfg):
                         ops.append(("str", nm, side(a_, order), side(b_, order)))
                     if p.get("key") == s2n.key:
                         conv.append(side(strip_refs(f.trace(t["args"][0])), order))
+            # comparisons made inside closures handed to Option combinators (`conv(x).map_or(false, |n| n < s)`)
+            for bi in sorted(blocks):
+                t = f.blocks[bi]["term"]
+                if t["k"] != "Call" or not callee_of(t):
+                    continue
+                pth = callee_of(t)["path"]
+                if not re.search(r"^std::option::Option::<T>::(map_or|map|and_then|is_some_and|unwrap_or)$", pth):
+                    continue
+                meth = pth.rsplit("::", 1)[1]
+                recv_side = side(strip_refs(f.trace(t["args"][0])), order)
+                if meth in ("map_or", "unwrap_or"):
+                    d_ = strip_refs(f.trace(t["args"][1]))
+                    if d_[0] == "const" and isinstance(const_value(d_[1]), bool):
+                        consts.append(const_value(d_[1]))
+                if meth == "is_some_and":
+                    consts.append(False)
+                for a in t["args"][1:]:
+                    ce = strip_refs(f.trace(a))
+                    if ce[0] == "agg" and ce[1].get("closure"):
+                        cb = facts.body(ce[1]["closure"])
+                        for cbi, csi, st in cb.stmts():
+                            if st["k"] == "Assign" and st["rv"]["k"] == "BinaryOp" and st["rv"]["op"] in ("Lt", "Le", "Gt", "Ge", "Eq", "Ne"):
+                                def cside(o):
+                                    e_ = strip_refs(cb.xtrace(o))
+                                    if e_ in (("arg", 2), ("carg", cb.key, 2)):
+                                        return recv_side
+                                    return side(e_, order)
+                                ops.append(("f64" if st["rv"].get("opty") == "f64" else st["rv"].get("opty"), st["rv"]["op"], cside(st["rv"]["a"]), cside(st["rv"]["b"])))
             m[(k1, k2)] = (ops, conv, consts)
             # expectations
             key = "%s: %s×%s (%s)" % (op, k1, k2, cfg)
